@@ -73,7 +73,7 @@ func run(c *core.Ctx) {
 	if !c.Quick() {
 		maxLen = shipped.MaxShortLen
 	}
-	c.Rule(fmt.Sprintf("per shipped lexer (tm, js x 3 dialects, json, test, simple): every byte string of length <= %d over its 14-byte alphabet, each without and with a leading BOM, then every seed text with all its <= %d-edit mutations (delete / duplicate / replace by an alphabet byte), duplicates removed per group (groups are provably disjoint: checked at start-up); non-trivial = the lexer returned >= 1 token and the input exercised an invalid token, a skipped gap, a token on line > 1 or a non-ASCII byte", maxLen, edits))
+	c.Rule(fmt.Sprintf("per shipped lexer (tm, js x 3 dialects, json, test, simple): every byte string of length <= %d over its 14-byte alphabet, each without and with a leading BOM, then every seed text with all its <= %d-edit mutations (delete / duplicate / replace by an alphabet byte), duplicates removed per group (groups are provably disjoint: checked at start-up); non-trivial = the lexer returned >= 2 tokens before EOI and the input exercised an invalid token, a skipped gap, a token on line > 1 or a non-ASCII byte", maxLen, edits))
 	c.Assume("the (space) rule languages were transcribed by hand from the .tm grammars (see comments in internal/shipped/lexers.go); rules that are (space) but %inject-ed are returned by the generated lexers and are treated as tokens")
 	c.Assume("generated lexers of enumerated grammars are covered by C11, not here")
 	c.Set("max_len", maxLen)
@@ -116,7 +116,7 @@ func run(c *core.Ctx) {
 						break
 					}
 				}
-				if st.Tokens >= 1 && (st.Invalid > 0 || st.Gaps > 0 || st.MaxLine > 1 || nonASCII) {
+				if st.Tokens >= 2 && (st.Invalid > 0 || st.Gaps > 0 || st.MaxLine > 1 || nonASCII) {
 					nt++
 				}
 				for _, k := range st.Kinds {
